@@ -258,6 +258,10 @@ class Verifier(Engine):
             raise OutOfSubset('len of %s' % kind_of(a))
         if name == 'isinstance':
             return VBool(self.isinstance_(st, args[0], args[1]))
+        if name == 'getattr' and len(args) == 2 and isinstance(args[1], VStr) and args[1].lit() is not None \
+                and isinstance(args[0], VRef):
+            # getattr(obj, 'literal'): the attribute read obj.literal
+            return self.get_attr(st, args[0], args[1].lit())
         if name == 'str' and len(args) == 3 and isinstance(args[0], VStr) and args[0].b \
                 and isinstance(args[1], VStr) and isinstance(args[2], VStr):
             # str(bytes, encoding, errors): the codec machinery is external -- decode() is uninterpreted; it raises
